@@ -450,7 +450,12 @@ func (w *world) exec(line string) (string, opInfo) {
 		if f[0] == "unlock" {
 			m = "UnLock"
 		}
-		resp, err = w.invokeVia(f[1], utils.GovernTokenKernelContract, m, acctName(info.acct),
+		// the transaction's initiator is deliberately another (funded) account than the one named in `from`
+		initiator := 1
+		if info.acct == 1 {
+			initiator = 0
+		}
+		resp, err = w.invokeVia(f[1], utils.GovernTokenKernelContract, m, acctName(initiator),
 			map[string][]byte{"from": []byte(acctName(info.acct)), "amount": []byte(f[3]), "lock_type": []byte(lt)})
 	case "propose":
 		info.acct = atoi(f[1])
@@ -549,7 +554,7 @@ func oracle(op opInfo, line string, pre, post *snap) []viol {
 		case sumOf(post) != *post.supply && !(pre.distributed && pre.supply != nil && sumOf(pre)-*pre.supply == sumOf(post)-*post.supply):
 			key := "supply-not-conserved-by-" + op.kind
 			if op.kind == "xfer" && op.acct == op.to {
-				key = "supply-minted-by-self-transfer"
+				key = "supply-changed-by-self-transfer"
 			}
 			if op.kind == "init" {
 				key = "init-supply-mismatch"
@@ -914,6 +919,128 @@ func randomCase(r *xvlib.Rng) []string {
 	return ops
 }
 
+// directedCase grows a history call by call on a live world and picks most arguments from the REAL current
+// state (boundary amounts around the available / locked balances, existing proposals and their heights), so
+// that the success paths and their edges are reached far more often than by blind choice.
+func directedCase(r *xvlib.Rng) []string {
+	resets := []string{resetBig, resetBig, "reset 0:3000 1:1500 50:2500", "reset 0:3000 1:1500 0:700", "reset 0:2500 1:1000 2:1000 50:1000",
+		resetSmall, "reset 0:10 1:4 1:3 50:8", "reset 0:1000 1:999"}
+	ops := []string{resets[r.Intn(len(resets))]}
+	pre, _ := parseReset(ops[0])
+	w := newWorld(pre)
+	accts := []int{0, 1, 2, 50}
+	pick := func() int { return accts[r.Intn(len(accts))] }
+	push := func(l string) {
+		ops = append(ops, l)
+		w.exec(l)
+	}
+	push(fmt.Sprintf("init %d", pick()))
+	n := 3 + r.Intn(10)
+	heights := []int{0, 5}
+	props := 0
+	around := func(x int64) int64 {
+		c := []int64{x, x, x + 1, x - 1, x / 2, 1, 0}
+		v := c[r.Intn(len(c))]
+		if v < 0 && !r.Chance(1, 8) {
+			v = 0
+		}
+		return v
+	}
+	for i := 0; i < n; i++ {
+		s := w.snapshot()
+		var have []int
+		for a := range s.bal {
+			have = append(have, a)
+		}
+		sort.Ints(have)
+		holder := func() int {
+			if len(have) == 0 || r.Chance(1, 6) {
+				return pick()
+			}
+			return have[r.Intn(len(have))]
+		}
+		avail := func(a int) int64 {
+			b := s.bal[a]
+			m := b.ord
+			if b.tdpos > m {
+				m = b.tdpos
+			}
+			return b.total - m
+		}
+		var voting []int
+		for pid, p := range s.props {
+			if p.status == "V" {
+				voting = append(voting, pid)
+			}
+		}
+		sort.Ints(voting)
+		anyPid := func() int {
+			if len(voting) > 0 && !r.Chance(1, 5) {
+				return voting[r.Intn(len(voting))]
+			}
+			return 1 + r.Intn(props+1)
+		}
+		c := r.Intn(100)
+		switch {
+		case c < 22:
+			f := holder()
+			push(fmt.Sprintf("xfer %d %d %d", f, pick(), around(avail(f))))
+		case c < 36:
+			a := holder()
+			via := []string{"P", "T", "T", "X", "P", "O", "D"}[r.Intn(7)]
+			t, locked := "o", s.bal[a].ord
+			if via == "T" || via == "X" {
+				t, locked = "t", s.bal[a].tdpos
+			}
+			if r.Chance(1, 25) {
+				t = "z"
+			}
+			push(fmt.Sprintf("lock %s %d %d %s", via, a, around(s.bal[a].total-locked), t))
+		case c < 50:
+			a := holder()
+			via := []string{"P", "T", "T", "X", "P", "O", "D"}[r.Intn(7)]
+			t, locked := "o", s.bal[a].ord
+			if via == "T" || via == "X" || (s.bal[a].ord == 0 && s.bal[a].tdpos > 0) {
+				t, locked = "t", s.bal[a].tdpos
+			}
+			if r.Chance(1, 25) {
+				t = "z"
+			}
+			push(fmt.Sprintf("unlock %s %d %d %s", via, a, around(locked), t))
+		case c < 60 && props < 4:
+			pct := []int{51, 51, 60, 100, 50, 101}[r.Intn(6)]
+			stop := 3 + r.Intn(3)
+			trig := []int{0, stop, stop + 2, stop + 3, stop + 2}[r.Intn(5)]
+			push(fmt.Sprintf("propose %d %d %d %d %d", holder(), pct, stop, trig, r.Intn(2)))
+			heights = append(heights, stop, trig)
+			if s2 := w.snapshot(); s2.lastPid > props {
+				props = s2.lastPid
+			}
+		case c < 74:
+			a := holder()
+			amt := around(avail(a))
+			if r.Chance(1, 3) && s.supply != nil {
+				amt = around(*s.supply * 51 / 100) // around the vote threshold
+			}
+			push(fmt.Sprintf("vote %d %d %d", a, anyPid(), amt))
+		case c < 82:
+			pid := anyPid()
+			a := s.props[pid].proposer
+			if r.Chance(1, 4) {
+				a = pick()
+			}
+			push(fmt.Sprintf("thaw %d %d", a, pid))
+		case c < 94:
+			push(fmt.Sprintf("timer %d", heights[r.Intn(len(heights))]))
+		case c < 96:
+			push(fmt.Sprintf("init %d", pick()))
+		default:
+			push(fmt.Sprintf("%s %s %d", []string{"cvr", "trig"}[r.Intn(2)], []string{"D", "O"}[r.Intn(2)], anyPid()))
+		}
+	}
+	return ops
+}
+
 func splitCases(lines []string) [][]string {
 	var cases [][]string
 	for _, l := range lines {
@@ -957,13 +1084,13 @@ func main() {
 	}
 	// 2. exhaustive call sequences over the small universe
 	type lvl struct{ level, depth int }
-	small := []lvl{{0, 2}, {1, 3}}
+	small := []lvl{{0, 2}, {1, 3}, {2, 4}}
 	bigs := []lvl{{0, 2}, {1, 3}}
-	nRandom := 6000
+	nRandom := 36000
 	if thorough {
 		small = []lvl{{0, 3}, {1, 4}, {2, 5}}
 		bigs = []lvl{{0, 3}, {1, 4}}
-		nRandom = 120000
+		nRandom = 150000
 	}
 	var rules []string
 	for _, l := range small {
@@ -979,7 +1106,12 @@ func main() {
 	// 3. random longer sequences (duplicated genesis entries, lower-case account, all callers)
 	rng := xvlib.NewRng(args.Seed)
 	for i := 0; i < nRandom; i++ {
-		c := randomCase(rng)
+		var c []string
+		if i%3 == 0 {
+			c = randomCase(rng)
+		} else {
+			c = directedCase(rng)
+		}
 		doCase(out, c)
 		if i < 3 {
 			r := runCase(c)
@@ -987,5 +1119,5 @@ func main() {
 		}
 	}
 	out.Stats.Exhaustive = true
-	out.Stats.Rule = "exhaustive: " + strings.Join(rules, "; ") + fmt.Sprintf("; plus %d seeded random sequences of 2-10 calls (transfers incl. self/fresh, lock/unlock from $proposal/$tdpos/$xpos/outsiders/top-level, propose/vote/thaw/timer, duplicated genesis addresses); every call is checked by the oracle against the decoded store; non-trivial = at least one successful call after init, distinct by op list", nRandom)
+	out.Stats.Rule = "exhaustive: " + strings.Join(rules, "; ") + fmt.Sprintf("; plus %d seeded random sequences of 2-13 calls, one third blind, two thirds state-directed (arguments chosen around the real available/locked balances, existing proposals and their heights) (transfers incl. self/fresh, lock/unlock from $proposal/$tdpos/$xpos/outsiders/top-level, propose/vote/thaw/timer, duplicated genesis addresses); every call is checked by the oracle against the decoded store; non-trivial = at least one successful call after init, distinct by op list", nRandom)
 }
